@@ -95,3 +95,18 @@ Proof.
   cbv zeta. split; [vm_compute; reflexivity|]. split; [reflexivity|]. split; [vm_compute; reflexivity|].
   unfold Proofs.C04.constraint_sem. cbn. unfold ge_opt, le_opt. cbn. right. repeat split; discriminate.
 Qed.
+
+(* the marker written after the last element of a set (where the lexer keeps it) is never lost: whatever the fold keeps or drops --
+   non-PER-visible parts, contained subtypes, the ignored part of EXCEPT -- a bounded result is flagged extensible (fix ba5357f) *)
+Theorem C04_trailing_marker_never_lost :
+  forall fuel b o r cx rg,
+    range_of_constraint fuel {| cset := SetOp b o r; cext := cx |} = Ok rg ->
+    trailing_marker r = true -> Proofs.C04.bounded rg = true -> rext rg = true.
+Proof. exact Proofs.C04.trailing_marker_flagged. Qed.
+
+(* non-vacuity: (0..5 ^ <contained subtype> EXCEPT 7..9, ...) -- the fold drops the whole operant, the marker stays *)
+Example C04_trailing_marker_example :
+  let r := SetOp Contained Except (El (Range (Some (VInt 7)) (Some (VInt 9)) true)) in
+  range_of_constraint 12 {| cset := SetOp (Range (Some (VInt 0)) (Some (VInt 5)) false) Inter r; cext := false |}
+  = Ok {| rmin := Some 0; rmax := Some 5; rext := true; rsize := false |} /\ trailing_marker r = true.
+Proof. vm_compute. split; reflexivity. Qed.
